@@ -27,10 +27,33 @@ def mentions_call(t, name):
     return any(isinstance(s, tuple) and s and s[0] == "call" and s[1] == name for s in subterms(t))
 
 
+_FIELD_BITS = {}      # field name -> bit width of the narrowest declaration of that field (set by run())
+
+
+def _bits(ty):
+    import re
+    m = re.match(r"^[iu](8|16|32|64|128|size)$", ty or "")
+    if not m:
+        return None
+    return 64 if m.group(1) == "size" else int(m.group(1))
+
+
 def is_millis_of(t, field_term):
-    """Duration::from_millis(cast(field_term)) """
-    return (isinstance(t, tuple) and t and t[0] == "call" and t[1] == "std::time::Duration::from_millis"
-            and len(t[2]) == 1 and _uncast(t[2][0]) == field_term)
+    """Duration::from_millis(cast(field_term)), where no cast on the way is narrower than the field itself
+    (`interval_ms as u8 as u64` is another number)"""
+    if not (isinstance(t, tuple) and t and t[0] == "call" and t[1] == "std::time::Duration::from_millis" and len(t[2]) == 1):
+        return False
+    x = t[2][0]
+    if _uncast(x) != field_term:
+        return False
+    name = field_term[2] if isinstance(field_term, tuple) and field_term and field_term[0] == "field" and len(field_term) > 2 else None
+    need = _FIELD_BITS.get(name) or 64
+    while isinstance(x, tuple) and x and x[0] == "cast":
+        b = _bits(x[2])
+        if b is None or b < need:
+            return False
+        x = x[1]
+    return True
 
 
 def _uncast(t):
@@ -75,6 +98,14 @@ def run(ctx):
         bad = premises.own_violations(ctx, "C09")
         ck.ob("C11-s1", "-", "every-acted-on-key-event-cancels-or-restarts-repeating(C09-rules-hold)", not bad, detail=None if not bad else bad[0][:220])
     t0 = R.var0(R.timer)
+    # declared widths of the two numbers that travel from the mapping to the clock
+    _FIELD_BITS.clear()
+    for ty in ("remapping_loop::WorkingRepeat", "key_transforms::ResultingRepeat", "keys::Repeat"):
+        for v in ctx.adt(ty)["variants"]:
+            for f in v["fields"]:
+                b = _bits(f["ty"])
+                if f["name"] in ("delay_ms", "interval_ms") and b is not None:
+                    _FIELD_BITS[f["name"]] = max(_FIELD_BITS.get(f["name"], 0), b)
 
     # ---- R1 poll timeout ------------------------------------------------------
     n_r1 = 0
